@@ -68,6 +68,10 @@ package bttest
 //@   ensures famSep(r.Families)
 // frame (for callers that hold other rows): families that are not in r keep their column list, column arrays that do
 // not belong to a family of r keep their elements
+//@   ensures forall p *btpb.Family :: (forall k :: 0 <= k < old(len(r.Families)) ==> old(r.Families[k]) != p) ==> p.Columns == old(p.Columns)
+//@   ensures forall s []*btpb.Column, j :: 0 <= j < len(s) && (forall k :: 0 <= k < old(len(r.Families)) ==> old(obj(r.Families[k].Columns)) != obj(s)) ==> s[j] == old(s[j])
+//@   loop 1 invariant forall p *btpb.Family :: (forall k :: 0 <= k < old(len(r.Families)) ==> old(r.Families[k]) != p) ==> p.Columns == old(p.Columns)
+//@   loop 1 invariant forall s []*btpb.Column, j :: 0 <= j < len(s) && (forall k :: 0 <= k < old(len(r.Families)) ==> old(obj(r.Families[k].Columns)) != obj(s)) ==> s[j] == old(s[j])
 //@   loop 1 invariant 0 <= wIdx <= idx1 + 1
 //@   loop 1 invariant old(rowDesc(r)) ==> forall i :: 0 <= i < wIdx ==> colsDesc(r.Families[i].Columns)
 //@   loop 1 invariant old(rowDesc(r)) ==> forall k :: idx1 < k < len(r.Families) ==> colsDesc(r.Families[k].Columns)
@@ -84,7 +88,7 @@ package bttest
 //@   loop 1 invariant forall i :: 0 <= i < wIdx ==> exists k :: 0 <= k <= idx1 && r.Families[i] == old(r.Families[k])
 //@   loop 1 invariant forall k :: 0 <= k <= idx1 && old(famKeeps(r.Families[k], cols)) ==> exists i :: 0 <= i < wIdx && r.Families[i] == old(r.Families[k])
 //@   loop 1 invariant forall i, k :: 0 <= i < wIdx && idx1 < k < len(r.Families) ==> r.Families[i] != r.Families[k] && obj(r.Families[i].Columns) != obj(r.Families[k].Columns)
-//@   loop 1 invariant forall s []*btpb.Family :: !fresh(s) && obj(s) != obj(r.Families) && 0 < len(s) ==> s[0] == old(s[0])
+//@   loop 1 invariant frameExcept(elems(r.Families))
 //@   loop 1 invariant (forall k :: 0 <= k <= idx1 ==> old(famClean(r.Families[k], cols))) ==> wIdx == idx1 + 1
 //@   loop 1 invariant (forall k :: 0 <= k <= idx1 ==> old(famClean(r.Families[k], cols))) ==> !didChange
 //@   loop 1 invariant forall k :: 0 <= k <= idx1 && old(famDirty(r.Families[k], cols)) ==> (didChange || wIdx != idx1 + 1)
@@ -272,7 +276,8 @@ package bttest
 //@   loop 1 invariant forall s []*btpb.Column, j :: 0 <= j < len(s) ==> colKept(s[j], r)
 // Interleave, phase 1: every branch works on its own deep copy; nothing that existed at entry changes
 //@   loop 2 invariant rowOK(r)
-//@   loop 2 invariant frameOld(heap("F:bigtablepb.Row.Families"), heap("T:*bigtablepb.Family"), heap("F:bigtablepb.Family.Columns"), heap("T:*bigtablepb.Column"), heap("F:bigtablepb.Column.Cells"), heap("T:*bigtablepb.Cell"))
+//@   loop 2 invariant frameOld(heap("F:bigtablepb.Row.Families"), heap("T:*bigtablepb.Family"), heap("F:bigtablepb.Family.Columns"), heap("T:*bigtablepb.Column"), heap("T:*bigtablepb.Cell"))
+//@   loop 2 invariant forall s []*btpb.Column, j :: 0 <= j < len(s) && !fresh(s[j]) ==> s[j].Cells == old(s[j].Cells)
 //@   loop 2 invariant forall k :: 0 <= k < len(srs) ==> rowOK(srs[k])
 //@   loop 2 invariant forall k :: 0 <= k < len(srs) ==> fresh(srs[k])
 //@   loop 2 invariant fresh(srs) && len(srs) <= idx2 + 1 && cap(srs) == len(as(old(f.Filter), *btpb.RowFilter_Interleave_).Interleave.Filters)
@@ -281,7 +286,8 @@ package bttest
 //@   loop 3 invariant treeFresh(r)
 //@   loop 3 invariant famSep(r.Families)
 //@   loop 3 invariant otherRowsKept(r)
-//@   loop 3 invariant frameOld(heap("T:*bigtablepb.Row"), heap("T:*bigtablepb.Family"), heap("F:bigtablepb.Family.Columns"), heap("T:*bigtablepb.Column"), heap("F:bigtablepb.Column.Cells"), heap("T:*bigtablepb.Cell"))
+//@   loop 3 invariant frameOld(heap("T:*bigtablepb.Row"), heap("T:*bigtablepb.Family"), heap("F:bigtablepb.Family.Columns"), heap("T:*bigtablepb.Column"), heap("T:*bigtablepb.Cell"))
+//@   loop 3 invariant forall s []*btpb.Column, j :: 0 <= j < len(s) && !fresh(s[j]) ==> s[j].Cells == old(s[j].Cells)
 //@   loop 3 invariant forall k :: 0 <= k < len(srs) ==> rowOK(srs[k])
 //@   loop 3 invariant forall k :: 0 <= k < len(srs) ==> fresh(srs[k])
 //@   loop 3 invariant forall k :: 0 <= k < len(srs) ==> cap(r.Families) == 0 || obj(srs[k].Families) != obj(r.Families)
@@ -291,7 +297,8 @@ package bttest
 //@   loop 4 invariant treeFresh(r)
 //@   loop 4 invariant famSep(r.Families)
 //@   loop 4 invariant otherRowsKept(r)
-//@   loop 4 invariant frameOld(heap("T:*bigtablepb.Row"), heap("T:*bigtablepb.Family"), heap("F:bigtablepb.Family.Columns"), heap("T:*bigtablepb.Column"), heap("F:bigtablepb.Column.Cells"), heap("T:*bigtablepb.Cell"))
+//@   loop 4 invariant frameOld(heap("T:*bigtablepb.Row"), heap("T:*bigtablepb.Family"), heap("F:bigtablepb.Family.Columns"), heap("T:*bigtablepb.Column"), heap("T:*bigtablepb.Cell"))
+//@   loop 4 invariant forall s []*btpb.Column, j :: 0 <= j < len(s) && !fresh(s[j]) ==> s[j].Cells == old(s[j].Cells)
 //@   loop 4 invariant forall k :: 0 <= k < len(srs) ==> rowOK(srs[k])
 //@   loop 4 invariant forall k :: 0 <= k < len(srs) ==> fresh(srs[k])
 //@   loop 4 invariant forall k :: 0 <= k < len(srs) ==> cap(r.Families) == 0 || obj(srs[k].Families) != obj(r.Families)
@@ -302,7 +309,8 @@ package bttest
 //@   loop 5 invariant treeFresh(r)
 //@   loop 5 invariant famSep(r.Families)
 //@   loop 5 invariant otherRowsKept(r)
-//@   loop 5 invariant frameOld(heap("T:*bigtablepb.Row"), heap("T:*bigtablepb.Family"), heap("F:bigtablepb.Family.Columns"), heap("T:*bigtablepb.Column"), heap("F:bigtablepb.Column.Cells"), heap("T:*bigtablepb.Cell"))
+//@   loop 5 invariant frameOld(heap("T:*bigtablepb.Row"), heap("T:*bigtablepb.Family"), heap("F:bigtablepb.Family.Columns"), heap("T:*bigtablepb.Column"), heap("T:*bigtablepb.Cell"))
+//@   loop 5 invariant forall s []*btpb.Column, j :: 0 <= j < len(s) && !fresh(s[j]) ==> s[j].Cells == old(s[j].Cells)
 //@   loop 5 invariant forall k :: 0 <= k < len(srs) ==> rowOK(srs[k])
 //@   loop 5 invariant forall k :: 0 <= k < len(srs) ==> fresh(srs[k])
 //@   loop 5 invariant forall k :: 0 <= k < len(srs) ==> cap(r.Families) == 0 || obj(srs[k].Families) != obj(r.Families)
@@ -315,12 +323,14 @@ package bttest
 //@   loop 6 invariant treeFresh(r)
 //@   loop 6 invariant famSep(r.Families)
 //@   loop 6 invariant otherRowsKept(r)
-//@   loop 6 invariant frameOld(heap("T:*bigtablepb.Row"), heap("T:*bigtablepb.Family"), heap("F:bigtablepb.Family.Columns"), heap("T:*bigtablepb.Column"), heap("F:bigtablepb.Column.Cells"), heap("T:*bigtablepb.Cell"))
+//@   loop 6 invariant frameOld(heap("T:*bigtablepb.Row"), heap("T:*bigtablepb.Family"), heap("F:bigtablepb.Family.Columns"), heap("T:*bigtablepb.Column"), heap("T:*bigtablepb.Cell"))
+//@   loop 6 invariant forall s []*btpb.Column, j :: 0 <= j < len(s) && !fresh(s[j]) ==> s[j].Cells == old(s[j].Cells)
 //@   loop 7 invariant rowOK(r)
 //@   loop 7 invariant treeFresh(r)
 //@   loop 7 invariant famSep(r.Families)
 //@   loop 7 invariant otherRowsKept(r)
-//@   loop 7 invariant frameOld(heap("T:*bigtablepb.Row"), heap("T:*bigtablepb.Family"), heap("F:bigtablepb.Family.Columns"), heap("T:*bigtablepb.Column"), heap("F:bigtablepb.Column.Cells"), heap("T:*bigtablepb.Cell"))
+//@   loop 7 invariant frameOld(heap("T:*bigtablepb.Row"), heap("T:*bigtablepb.Family"), heap("F:bigtablepb.Family.Columns"), heap("T:*bigtablepb.Column"), heap("T:*bigtablepb.Cell"))
+//@   loop 7 invariant forall s []*btpb.Column, j :: 0 <= j < len(s) && !fresh(s[j]) ==> s[j].Cells == old(s[j].Cells)
 //@   loop 7 invariant 0 <= idx6 + 1 < len(r.Families) && fam == r.Families[idx6 + 1]
 //@   loop 8 invariant rowOK(r) && r.Families == old(r.Families)
 //@   loop 9 invariant rowOK(r) && r.Families == old(r.Families)
